@@ -268,7 +268,7 @@ func (ex *Exec) visitInstr(fr *frame, instr ssa.Instruction) continuation {
 		if addr == nil {
 			ex.rtPanic("invalid memory address or nil pointer dereference")
 		}
-		*addr = copyVal(fr.get(instr.Val))
+		storeInPlace(addr, fr.get(instr.Val))
 
 	case *ssa.If:
 		succ := 1
@@ -804,4 +804,26 @@ func lateLoads(ret *ssa.Return) []bool {
 	}
 	lateLoadCache.Store(ret, out)
 	return out
+}
+
+// storeInPlace writes v into *dst. Aggregates are copied element-wise into the existing cells so that
+// pointers to fields/elements taken before the store stay valid (go/ssa does emit "&x.f" before "x = T{}").
+func storeInPlace(dst *value, v value) {
+	switch nv := v.(type) {
+	case structure:
+		if old, ok := (*dst).(structure); ok && len(old) == len(nv) {
+			for i := range nv {
+				storeInPlace(&old[i], nv[i])
+			}
+			return
+		}
+	case array:
+		if old, ok := (*dst).(array); ok && len(old) == len(nv) {
+			for i := range nv {
+				storeInPlace(&old[i], nv[i])
+			}
+			return
+		}
+	}
+	*dst = copyVal(v)
 }
